@@ -869,6 +869,14 @@ func (s *jsSpeller) stmtList(list []*JSNode, last bool) {
 	}
 }
 
+// lineTerminator: any of the five ECMAScript line terminator sequences in the random-whitespace style, LF otherwise.
+func (s *jsSpeller) lineTerminator() string {
+	if s.st.WS == 2 && s.r.Intn(3) == 0 {
+		return Pick(s.r, []string{"\r\n", "\r", "\u2028", "\u2029"})
+	}
+	return "\n"
+}
+
 // JSSpell writes the program in the given style and returns the source and its identifier tokens in order.
 func JSSpell(p *JSProg, st JSStyle) (src string, idents []JSIdentOcc) {
 	s := &jsSpeller{r: rand.New(rand.NewSource(st.Seed)), st: st}
@@ -877,7 +885,17 @@ func JSSpell(p *JSProg, st JSStyle) (src string, idents []JSIdentOcc) {
 	safe := func(c byte) bool { return strings.IndexByte("()[]{};,", c) >= 0 }
 	for i, tk := range s.toks {
 		if tk.s == "\n" {
-			sb.WriteString("\n")
+			switch s.r.Intn(6) {
+			case 0:
+				if s.st.WS == 2 {
+					// a block comment that contains a line terminator counts as one (also when it is a bare CR, LS or PS)
+					sb.WriteString(" /* x" + s.lineTerminator() + "y */ ")
+					continue
+				}
+				fallthrough
+			default:
+				sb.WriteString(s.lineTerminator())
+			}
 			continue
 		}
 		if i > 0 && s.toks[i-1].s != "\n" {
@@ -922,13 +940,13 @@ func JSSpell(p *JSProg, st JSStyle) (src string, idents []JSIdentOcc) {
 				case c == 6:
 					sep = "  "
 				case c == 7 && !tk.noLT:
-					sep = "\n"
+					sep = s.lineTerminator()
 				case c == 8 && !tk.noLT:
-					sep = " // c\n"
+					sep = " // c" + s.lineTerminator()
 				case c == 9:
 					sep = " /* c */ "
 				case c == 10 && !tk.noLT:
-					sep = " /* a\n b */ "
+					sep = " /* a" + s.lineTerminator() + " b */ "
 				default:
 					if need {
 						sep = " "
